@@ -533,6 +533,27 @@ def materialise(v: Any) -> Any:
 EMPTY_IDX = -2
 
 
+class SubSection(dict):  # type: ignore[type-arg]
+    """a TOML table written as its own [section.key] block instead of an inline table"""
+
+
+# values of every TOML shape; offered at the key of every file-configurable option.  What a shape means for a given
+# option (invalid, or coerced to which value) is decided by direct model instantiation; the oracle is only
+# "a value that is present in the file is either used or reported - never dropped in favour of the default".
+FILE_SHAPES: list[tuple[str, Any]] = [
+    ("inline-table", {"seconds": 7}),
+    ("sub-section", SubSection({"seconds": 7})),
+    ("array", [7, 9]),
+    ("nested-array", [[7], [9]]),
+    ("bool", True),
+    ("float", 7.5),
+    ("integral-float", 7.0),
+    ("int", 7),
+    ("string", "zz"),
+]
+SHAPE_IDX = -100  # Val.idx of shape k is SHAPE_IDX - k
+
+
 def empty_value(kind: Kind) -> Val | None:
     """the present-but-empty value: an empty string in a source is a value, not absence.  Only for kinds whose type
     can take "" at all; whether a particular option accepts it is decided by the caller (direct instantiation with
@@ -609,6 +630,8 @@ def toml_value(v: Any) -> str:
         return json.dumps(v)
     if isinstance(v, list | tuple):
         return "[" + ", ".join(toml_value(x) for x in v) + "]"
+    if isinstance(v, dict):
+        return "{ " + ", ".join(f"{k} = {toml_value(x)}" for k, x in v.items()) + " }"
     raise TypeError(f"no TOML spelling for {v!r}")
 
 
@@ -619,10 +642,18 @@ def toml_doc(entries: dict[str, Any]) -> str:
         sec, _, name = key.rpartition(".")
         by_sec.setdefault(sec, []).append((name, v))
     out = []
+    tables = []
     for sec in sorted(by_sec):
         if sec:
             out.append(f"[{sec}]")
         for name, v in by_sec[sec]:
+            if isinstance(v, SubSection):
+                tables.append((f"{sec}.{name}" if sec else name, v))
+                continue
             out.append(f"{name} = {toml_value(v)}")
+        out.append("")
+    for key, v in tables:
+        out.append(f"[{key}]")
+        out += [f"{k} = {toml_value(x)}" for k, x in v.items()]
         out.append("")
     return "\n".join(out)
